@@ -98,3 +98,30 @@ def c09_bare(ci, n, which):
     SX.check(len([x for x in soup.descendants if isinstance(x, TexNode) and isinstance(x.expr, BracketGroup)]) == 0,
              'C09:bare-bracket-grouped', lambda: {'source': src})
     return ('ok', str(soup))
+
+
+def c09_trailing(ci, sepn, first):
+    """after a brace argument and a directly adjacent bracket group, a blank-separated brace group stays in the text"""
+    name = SX.fresh(1)
+    SX.assume(SX.ch_in(name, LETTERS))
+    SX.assume(SX.Not(SX.ch_among(name, 'ezw')))
+    sep = SX.fresh(sepn)
+    for ch in sep:
+        SX.assume(SX.ch_among(ch, ' \t\n\r'))
+    pre, post = CTX[ci]
+    head = ['{a}[b]', '[o]{a}[b]', '{a}{b}[c]'][first]
+    src = pre + '\\' + name + head + sep + '{c}' + post
+    det = lambda: {'source': src}
+    try:
+        soup = TexSoup(src)
+    except Exception as e:
+        SX.check(False, 'C09:parse-fails:' + type(e).__name__, lambda: dict(det(), error=repr(e)[:200]))
+        return ('parse-fails',)
+    cmd = soup.find(name)
+    SX.check(cmd is not None, 'C09:command-not-found', det)
+    if cmd is None:
+        return ('not-found',)
+    got = [SX.raw(str(a)) for a in cmd.args]
+    SX.check('{c}' not in got, 'C09:group-behind-blank-attached', lambda: dict(det(), got=got))
+    SX.check(str(soup) == src, 'C09:rest-kept', lambda: dict(det(), output=str(soup)))
+    return ('ok', str(soup))
